@@ -299,7 +299,19 @@ func zzC05Takeover() {
 // the OTHER node, then A's former node re-associates: that must remove nothing of the other node.
 func zzC05DeleteReuseReassoc() {
 	z := zzMkIso()
-	zzDeliver(z.s, zzDelReq(2, 7), z.addr(z.na), 7)
+	// A ends either by its peer's Deletion Request or because its peer answered a report of it with
+	// SEID 0 ("no such session here")
+	if nondetBool("ended-by-seid0-report-response") {
+		if z.na == z.nb {
+			zzAssume(z.cpA != z.cpB)
+		}
+		req := message.NewSessionReportRequest(0, 0, z.cpA, 0, 0, ie.NewReportType(0, 0, 1, 0))
+		rsp := message.NewSessionReportResponse(0, 0, 0, 0, 0, ie.NewCause(ie.CauseSessionContextNotFound))
+		z.s.handleSessionReportResponse(rsp, z.addr(z.na), req)
+		zzCover("C05.reuse2.ended-by-seid0")
+	} else {
+		zzDeliver(z.s, zzDelReq(2, 7), z.addr(z.na), 7)
+	}
 	_, err := z.s.lnode.Sess(2)
 	zzAssert("C05.reuse2.a-gone", err != nil)
 	other := 1 - z.na
